@@ -28,6 +28,8 @@ pub enum Named {
     FirstTMinus1,
     All,
     Strided,
+    /// the k-th permutation (lexicographic) of the first six shares
+    Perm(u16),
 }
 
 #[derive(Clone, Debug, PartialEq, Eq, Hash, Serialize, Deserialize)]
@@ -40,7 +42,11 @@ pub enum St {
     SplitRefused(usize),
     /// a (2,3) splitting partially signing a long message (length index into LONG_LENS)
     LongMessage { s: Scheme, len: usize },
+    /// a 3-of-5 sharing on a polynomial crafted so that participants 1 and 2 hold the same value; subset index
+    EqualValues { s: Scheme, subset: usize },
 }
+
+const EQ_SUBSETS: [&[u8]; 7] = [&[1, 2, 3], &[1, 2, 4], &[2, 1, 5], &[5, 2, 1], &[1, 2, 3, 4, 5], &[3, 4, 5], &[1, 3, 5]];
 
 /// 64 KiB, 2 MiB, 4 MiB, 16 MiB boundaries (+1): request-size guards and 16 / 32 bit length arithmetic
 const LONG_LENS: [usize; 4] = [65537, (1 << 21) + 1, (1 << 22) + 1, (1 << 24) + 1];
@@ -88,7 +94,7 @@ fn tn_grid(tier: Tier) -> (Vec<(usize, usize)>, Vec<(usize, usize)>) {
     let big = if tier.thorough() {
         vec![(2, 255), (3, 255), (128, 255), (254, 255), (255, 255), (2, 100), (50, 100)]
     } else {
-        vec![(2, 255), (255, 255), (2, 254), (3, 128), (65, 70), (33, 40)]
+        vec![(2, 255), (255, 255), (2, 254), (3, 128), (65, 70), (33, 40), (9, 10), (17, 20), (34, 40), (50, 64), (64, 64), (100, 128), (130, 199), (199, 200)]
     };
     (small, big)
 }
@@ -171,6 +177,9 @@ impl<C: Suite> Model for M08<C> {
             for len in 0..LONG_LENS.len() {
                 v.push(St::LongMessage { s, len });
             }
+            for subset in 0..EQ_SUBSETS.len() {
+                v.push(St::EqualValues { s, subset });
+            }
         }
         v
     }
@@ -187,6 +196,12 @@ impl<C: Suite> Model for M08<C> {
             if seq.is_empty() {
                 for k in [Named::FirstT, Named::LastT, Named::FirstTMinus1, Named::All, Named::Strided] {
                     a.push(Act::Take(k));
+                }
+                // every order of six shares, on the (3,128) instance
+                if it.t == 3 && it.n == 128 {
+                    for k in 0..720u16 {
+                        a.push(Act::Take(Named::Perm(k)));
+                    }
                 }
             } else {
                 a.push(Act::Fault(Fault::Reverse));
@@ -251,6 +266,17 @@ impl<C: Suite> Model for M08<C> {
                         // t shares spread over the whole range
                         (0..it.t).map(|i| ids[i * it.n / it.t]).collect()
                     }
+                    Named::Perm(k) => {
+                        let mut items: Vec<u8> = ids[..6].to_vec();
+                        let mut k = *k as usize;
+                        let mut out = vec![];
+                        for i in (0..6).rev() {
+                            let f: usize = (1..=i).product();
+                            out.push(items.remove(k / f));
+                            k %= f;
+                        }
+                        out
+                    }
                 };
                 St::Collect { inst: *inst, seq: s, fault: None }
             }
@@ -261,6 +287,7 @@ impl<C: Suite> Model for M08<C> {
         match st {
             St::BadParams { s, t, n } => format!("{} {} split(threshold={}, limit={}) must be refused", C::G, s.name(), t, n),
             St::SplitRefused(i) => format!("{} split(threshold={}, limit={}) is in range and must succeed", C::G, self.failed[*i].1, self.failed[*i].2),
+            St::EqualValues { s, subset } => format!("{} {} 3-of-5 sharing in which participants 1 and 2 hold equal values, participants {:?}: key, public key and signature recombine", C::G, s.name(), EQ_SUBSETS[*subset]),
             St::LongMessage { s, len } => format!("{} {} (2,3) shares partially sign a message of {} bytes; recombined = whole key signature", C::G, s.name(), LONG_LENS[*len]),
             St::Collect { inst, seq, fault } => {
                 let it = &self.insts[*inst];
@@ -283,6 +310,22 @@ impl<C: Suite> Model for M08<C> {
         let g = C::G;
         o.nontrivial = true;
         match st {
+            St::EqualValues { s, subset } => {
+                let sk = SecretKey::<C>::from_hash(b"c08 equal valued shares");
+                let all = shares_with_equal_values::<C>(&sk, 5);
+                let pick: Vec<SecretKeyShare<C>> = EQ_SUBSETS[*subset].iter().map(|i| all[*i as usize - 1].clone()).collect();
+                let r = guard(|| -> Result<(bool, bool, bool), String> {
+                    let k = SecretKey::<C>::combine(&pick).map_err(|e| format!("combine: {}", e))?;
+                    let pks: Vec<PublicKeyShare<C>> = pick.iter().map(|x| x.public_key().unwrap()).collect();
+                    let p = PublicKey::<C>::from_shares(&pks).map_err(|e| format!("PublicKey::from_shares: {}", e))?;
+                    let parts: Vec<SignatureShare<C>> = pick.iter().map(|x| x.sign(lib_scheme(*s), &self.msg).unwrap()).collect();
+                    let sg = Signature::<C>::from_shares(&parts).map_err(|e| format!("Signature::from_shares: {}", e))?;
+                    Ok((k == sk, p == sk.public_key(), sg == sk.sign(lib_scheme(*s), &self.msg).unwrap()))
+                });
+                o.calls(4);
+                o.outcome(if matches!(r, Ok(Ok((true, true, true)))) { "equal-values:recombines" } else { "equal-values:fails" });
+                o.expect(&format!("C08:equal-valued-shares-recombine:{}:{}", g, s.name()), matches!(r, Ok(Ok((true, true, true)))), "key, public key and signature of the whole key", &format!("{:?}", r));
+            }
             St::LongMessage { s, len } => {
                 use rand_core::SeedableRng;
                 let n = LONG_LENS[*len];
@@ -557,7 +600,7 @@ impl<C: Suite> Model for M08<C> {
 
 fn depth_of<C: Suite>(_m: &M08<C>, s: &St) -> usize {
     match s {
-        St::BadParams { .. } | St::SplitRefused(_) | St::LongMessage { .. } => 0,
+        St::BadParams { .. } | St::SplitRefused(_) | St::LongMessage { .. } | St::EqualValues { .. } => 0,
         St::Collect { seq, fault, .. } => seq.len() + fault.is_some() as usize,
     }
 }
